@@ -1,5 +1,6 @@
 import Brc20.Model.DriverT
 import Brc20.Model.DriverC
+import Brc20.Model.DriverP
 
 open Brc20
 
@@ -22,4 +23,5 @@ def main (args : List String) : IO UInt32 := do
   match args with
   | ["T"] => loopT stdin stdout {}; return 0
   | ["C"] => loopStateless stdin stdout DriverC.step; return 0
+  | ["P"] => loopStateless stdin stdout DriverP.step; return 0
   | _ => IO.eprintln "usage: brc20model <suite>"; return 2
